@@ -37,7 +37,7 @@ def cross_table():
     if not os.path.exists(p):
         return "(cross matrix not run yet)\n"
     d = json.load(open(p))
-    out = "Quick command of EVERY check against every seeded change (`tools/cross.py`; exit 1 = fires). No run ended INCONCLUSIVE.\n\n| seeded change | its own check | other checks that also fire |\n|---|---|---|\n"
+    out = "Quick command of EVERY check against every seeded change (`tools/cross.py`; exit 1 = fires). Rounds 1-4 were swept with the harness as it stood after round 4 (a change whose own check is shown silent there was caught later, see table 13.1 and section 14); rounds 10 and 11 with the final harness (38 changes x 19 checks: every own check fires; the few INCONCLUSIVE entries are child processes of another check dying on a tree that panics).\n\n| seeded change | its own check | other checks that also fire |\n|---|---|---|\n"
     n_own = 0
     for s in sorted(d):
         r = d[s]
